@@ -168,6 +168,18 @@ def run_case(case):
             else:
                 merged.append([s_, e])
         stalls = merged
+        # ... and no item is offered before the belt has moved its full length under it: time since entry minus standstill
+        for i, it in enumerate(items):
+            ro = r.t_offer.get(id(it))
+            if ro is None or i >= len(p):
+                continue
+            still = sum(max(0.0, min(ro, e) - max(p[i], s_)) for (s_, e) in stalls)
+            moved = (ro - p[i]) - still
+            if fl != "length_not_multiple" and moved < r.travel_nominal and not close(moved, r.travel_nominal) and not res.violations:
+                res.violate((kind, acc, "min_travel_moving", fl),
+                            "item #%d entered at %s and was offered at %s; the belt stood still for %.6g of that, so it carried the item for "
+                            "%.6g < belt length / speed = %.6g" % (i, p[i], ro, still, moved, r.travel_nominal))
+                break
         for i in range(len(p) - 1):
             a, b = p[i], p[i + 1]
             still = sum(max(0.0, min(b, e) - max(a, s_)) for (s_, e) in stalls)
